@@ -16,6 +16,8 @@
 //!   sig.sign_recover_digest key comp msg hash rk digest -> OK:<same>;<pubkey> | OK:E   as sign_recover, through recover_public_key_from_digest
 //!   sig.cross signer key comp msg hash rk aux route entry -> OK:<same>;<pubkey> | OK:E   every signing entry point (see ops_c05.rs
 //!        produce) through recovery: route mem | cmp, entry m (message) | d (digest)
+//!   sig.digest_cross key comp digest route -> OK:<same>;<pubkey|E>;<v>   sign_digest -> (compact round trip) -> recovery from the
+//!        same digest and verify_hashbuf; digests at and above the group order are reduced by every entry point alike
 //!   sig.compact_der der info            -> OK:<65 bytes>   from_der (no recovery info), to_compact_bytes(info); info = n | <recid><c>
 //!   sig.signed key comp msg hash rk info msg2 hash2 -> OK:<65 bytes>;<K<pubkey>|E>;<v>   in-memory signer output: to_compact_bytes(info),
 //!        recover_public_key(msg2, hash2), verify_message(msg2, own key)
@@ -229,6 +231,32 @@ pub fn run(op: &str, args: &[String]) -> Option<String> {
                     format!("OK:{};{}", (pb == own) as u8, show_bytes(&pb))
                 }
                 Err(_) => "OK:E".into(),
+            }
+        }
+        "sig.digest_cross" => {
+            // key comp digest route: sign_digest_with_deterministic_k(digest), route mem | cmp, recover_public_key_from_digest(digest)
+            // and verify_hashbuf(digest) on the same object -> OK:<same>;<pubkey|E>;<v>
+            let key = okk!(some!(key_of(args, 0, 1)));
+            let digest = some!(arg_bytes(args, 2));
+            let route = some!(args.get(3)).as_str();
+            if route != "mem" && route != "cmp" {
+                return Some("BADARG".into());
+            }
+            let sig = okk!(ECDSA::sign_digest_with_deterministic_k(&key, &digest));
+            let obj = if route == "mem" { sig } else { okk!(Signature::from_compact_bytes(&sig.to_compact_bytes(None))) };
+            let own_pk = okk!(key.to_public_key());
+            let own = okk!(own_pk.to_bytes());
+            let v = match ECDSA::verify_hashbuf(&digest, &own_pk, &obj) {
+                Ok(true) => "1",
+                Ok(false) => "0",
+                Err(_) => "E",
+            };
+            match obj.recover_public_key_from_digest(&digest) {
+                Ok(p) => {
+                    let pb = okk!(p.to_bytes());
+                    format!("OK:{};{};{}", (pb == own) as u8, show_bytes(&pb), v)
+                }
+                Err(_) => format!("OK:0;E;{}", v),
             }
         }
         "sig.compact_der" => {
